@@ -271,3 +271,50 @@ def r08_4(ctx):
                 done = True
         if not done:
             ctx.ob(f"{e.name}:serialises-current-input", False, site(e), "no toml::to_string* call found")
+
+
+@rule("R08.5", 3, "nulls reach the TOML converter as `unit` (which toml refuses) on both paths; Option-style none/some are never emitted", ["C08"])
+def r08_5(ctx):
+    import r_c01
+
+    lib = ctx.lib
+    stream, value = r_c01.visitor_impls(lib)
+    # streaming path: visit_unit -> serialize_unit
+    for it in stream["items"]:
+        if it["name"] == "visit_unit":
+            b = lib.by_id[it["def"]]
+            names = [fn_of(t)["name"] for _, _, t in Super(lib, b, depth=3).calls() if (fn_of(t) or {}).get("trait") == "serde::Serializer"]
+            ctx.ob("stream:null-as-unit", names == ["serialize_unit"], site(b), f"streaming visitor forwards null with {names}")
+    # value path: visit_unit -> variant -> serializer method
+    vu = [it for it in value["items"] if it["name"] == "visit_unit"]
+    variant = None
+    if vu:
+        b = lib.by_id[vu[0]["def"]]
+        for _, _, kind, payload in b.whole_defs(0):
+            if kind == "assign" and payload["rv"]["k"] == "aggregate":
+                tr = trace(b, payload["rv"]["ops"][0]) if payload["rv"]["ops"] else None
+                if tr and tr.origin and tr.origin[0] == "agg":
+                    variant = tr.origin[1]["rv"]["variant"]
+                    adt_name = tr.origin[1]["rv"]["adt"]
+    ok = False
+    det = "visit_unit of the borrowed value not found"
+    if variant:
+        for sb in lib.bodies:
+            if sb.raw.get("impl_trait") == "serde::Serialize" and sb.raw.get("impl_self_adt") == adt_name and sb.name == "serialize":
+                adt = lib.adts[adt_name]
+                idx = [v["idx"] for v in adt["variants"] if v["name"] == variant][0]
+                sw = sb.blocks[0]["term"]
+                tg = [x for v, x in sw["targets"] if v == idx][0]
+                names = [fn_of(t)["name"] for bb, t in sb.calls() if sb.edge_dominates(0, idx, tg, bb) and (fn_of(t) or {}).get("trait") == "serde::Serializer"]
+                ok = names == ["serialize_unit"]
+                det = f"borrowed value forwards null (Value::{variant}) with {names}"
+    ctx.ob("value:null-as-unit", ok, value["self_ty"], det + ("" if ok else " — toml silently drops `none` map entries instead of refusing the document"))
+    bad = []
+    for b in lib.bodies:
+        for bb, t in b.calls():
+            f = fn_of(t) or {}
+            if f.get("trait") == "serde::Serializer" and f["name"] in ("serialize_none", "serialize_some"):
+                bad.append((b, bb, f["name"]))
+    for b, bb, nm in bad:
+        ctx.ob(f"option-style:{b.name}:{nm}", False, site(b, bb), f"`{nm}` is emitted: toml's map serializer skips None entries silently")
+    ctx.ob("no-option-style-serialization", not bad, "lib", "xt never emits serialize_none/serialize_some")
